@@ -7,19 +7,19 @@ open RaftWal.Crash
 
 /-- StoreLogs without a fault, from a clean disk on which the (possibly replaced) tail's writer is not sealed -/
 theorem store_agrees {p : Proc} (hf : p.frozen = none) (hc : Clean p.disk) (first : Nat) (es : List Entry) (seals : Bool)
-    (wf : WriteFail) {a1 del : List Act} (hr : resetActs p.disk first = (a1, del)) (h1 : NoWrite a1) (h2 : NoWrite del)
+    {pl : Plan} (hpl : AllNone pl) {a1 del : List Act} (hr : resetActs p.disk first = (a1, del)) (h1 : NoWrite a1) (h2 : NoWrite del)
     {t : Seg} (ht : (p.disk.applyAll a1).md.segs.getLast? = some t)
     (hs : tailSealedMem (p.disk.applyAll a1) = false) :
-    (runOp p (.store first es seals) none wf).1.disk = p.disk.applyAll (prog p.disk (.store first es seals)) ∧
-    (runOp p (.store first es seals) none wf).2 = true ∧ (runOp p (.store first es seals) none wf).1.frozen = none := by
+    (runOp p (.store first es seals) pl).1.disk = p.disk.applyAll (prog p.disk (.store first es seals)) ∧
+    (runOp p (.store first es seals) pl).2 = true ∧ (runOp p (.store first es seals) pl).1.frozen = none := by
   have hc1 : Clean (p.disk.applyAll a1) := clean_applyAll_nowrite hc h1
   have hc2 : Clean ((p.disk.applyAll a1).applyAll [.write t.id es seals, .fsync t.id]) := clean_append hc1 _ _ _
   have hc3 : Clean (((p.disk.applyAll a1).applyAll [.write t.id es seals, .fsync t.id]).applyAll del) :=
     clean_applyAll_nowrite hc2 h2
   simp only [runOp, hf, Option.isSome_none, Bool.false_eq_true, ↓reduceIte, vdisk_of_clean hc, hr, prog, storeProg]
-  rw [runActs_none_nowrite _ _ h1]
+  rw [runActs_none_nowrite _ h1 hpl]
   simp only [vdisk_of_clean hc1, ht, hs, Bool.false_eq_true, ↓reduceIte]
-  rw [runActs_none_append hc1, runActs_none_nowrite _ _ h2]
+  rw [runActs_none_append hc1 _ _ _ (hpl.drop _), runActs_none_nowrite _ h2 ((hpl.drop _).drop _)]
   simp only [Option.isSome_none, Bool.false_eq_true, ↓reduceIte, vdisk_of_clean hc3]
   have e3 : (p.disk.applyAll a1).applyAll ([.write t.id es seals, .fsync t.id] ++ del ++ [.ack]) =
       ((p.disk.applyAll a1).applyAll [.write t.id es seals, .fsync t.id]).applyAll del := by
@@ -32,7 +32,7 @@ theorem store_agrees {p : Proc} (hf : p.frozen = none) (hc : Clean p.disk) (firs
     exact ⟨rfl, trivial, trivial⟩
   | true =>
     simp only [↓reduceIte]
-    rw [runActs_none_nowrite _ _ (NoWrite.rotate _)]
+    rw [runActs_none_nowrite _ (NoWrite.rotate _) (((hpl.drop _).drop _).drop _)]
     simp only
     rw [applyAll_append, applyAll_append, e3]
     exact ⟨rfl, trivial, trivial⟩
@@ -64,9 +64,10 @@ theorem reset_tail {d : Disk} {P : List Seg} {t : Seg} {f : File} (h : QS d P t 
   rw [apply_create_file? _ _ _ hn]
   simp [newSeg, File.fresh]
 
-theorem no_fault_store {p : Proc} (hp : Fresh p) (first : Nat) (es : List Entry) (seals : Bool) (wf : WriteFail) :
-    (runOp p (.store first es seals) none wf).1.disk = p.disk.applyAll (prog p.disk (.store first es seals)) ∧
-    (runOp p (.store first es seals) none wf).2 = true ∧ (runOp p (.store first es seals) none wf).1.frozen = none := by
+theorem no_fault_store {p : Proc} (hp : Fresh p) (first : Nat) (es : List Entry) (seals : Bool) {pl : Plan}
+    (hpl : AllNone pl) :
+    (runOp p (.store first es seals) pl).1.disk = p.disk.applyAll (prog p.disk (.store first es seals)) ∧
+    (runOp p (.store first es seals) pl).2 = true ∧ (runOp p (.store first es seals) pl).1.frozen = none := by
   obtain ⟨P, t, f, hq⟩ := (quiescentS_iff p.disk).1 hp.1
   have hc := clean_of_QS hq
   have hl : p.disk.md.segs.getLast? = some t := by rw [hq.base.segs]; simp
@@ -76,36 +77,36 @@ theorem no_fault_store {p : Proc} (hp : Fresh p) (first : Nat) (es : List Entry)
       simp only [hl]
       rw [if_pos hcond]
     obtain ⟨h1, h2⟩ := reset_tail hq p.disk.md.segs.dropLast first
-    exact store_agrees hp.2 hc first es seals wf hr (NoWrite.newTail _ _ _) (NoWrite.cons (by rfl) NoWrite.nil) h1 h2
+    exact store_agrees hp.2 hc first es seals hpl hr (NoWrite.newTail _ _ _) (NoWrite.cons (by rfl) NoWrite.nil) h1 h2
   · have hr : resetActs p.disk first = ([], []) := by
       unfold resetActs
       simp only [hl]
       rw [if_neg hcond]
-    exact store_agrees hp.2 hc first es seals wf hr NoWrite.nil NoWrite.nil hl (tailSealedMem_QS hq)
+    exact store_agrees hp.2 hc first es seals hpl hr NoWrite.nil NoWrite.nil hl (tailSealedMem_QS hq)
 
 /-- **without a fault, on a fresh state, a call does exactly what Model.Crash says it does, and returns nil**
     (legality of the call is not needed) -/
-theorem no_fault_agrees' {p : Proc} (hp : Fresh p) (op : Op) (wf : WriteFail) :
-    (runOp p op none wf).1.disk = p.disk.applyAll (prog p.disk op) ∧ (runOp p op none wf).2 = true ∧
-    (runOp p op none wf).1.frozen = none := by
+theorem no_fault_agrees' {p : Proc} (hp : Fresh p) (op : Op) {pl : Plan} (hpl : AllNone pl) :
+    (runOp p op pl).1.disk = p.disk.applyAll (prog p.disk op) ∧ (runOp p op pl).2 = true ∧
+    (runOp p op pl).1.frozen = none := by
   cases op with
-  | store first es seals => exact no_fault_store hp first es seals wf
-  | delHead newMin => exact no_fault_delHead hp newMin wf
-  | delTail newMax => exact no_fault_delTail hp newMax wf
+  | store first es seals => exact no_fault_store hp first es seals hpl
+  | delHead newMin => exact no_fault_delHead hp newMin hpl
+  | delTail newMax => exact no_fault_delTail hp newMax hpl
   | set k v =>
-    have := no_fault_set p k v wf
+    have := no_fault_set p k v hpl
     rw [hp.2] at this
     exact this
 
-theorem no_fault_agrees : no_fault_agrees_stmt := fun _ hp op _ wf => no_fault_agrees' hp op wf
+theorem no_fault_agrees : no_fault_agrees_stmt := fun _ hp op _ _ hpl => no_fault_agrees' hp op hpl
 
 /-- … so the call leaves a fresh state whose log (and readers' view) is the specification's -/
-theorem no_fault_fresh {p : Proc} (hp : Fresh p) (op : Op) (hok : OkV (view p) op) (wf : WriteFail) :
-    Fresh (runOp p op none wf).1 ∧ view (runOp p op none wf).1 = specApply (view p) op := by
+theorem no_fault_fresh {p : Proc} (hp : Fresh p) (op : Op) (hok : OkV (view p) op) {pl : Plan} (hpl : AllNone pl) :
+    Fresh (runOp p op pl).1 ∧ view (runOp p op pl).1 = specApply (view p) op := by
   have hok' := (fresh_okV_iff hp op).1 hok
-  obtain ⟨h1, _, h3⟩ := no_fault_agrees' hp op wf
+  obtain ⟨h1, _, h3⟩ := no_fault_agrees' hp op hpl
   obtain ⟨hq, hl⟩ := call_refines_corrected p.disk hp.1 op hok'
-  have hf : Fresh (runOp p op none wf).1 := ⟨by rw [h1]; exact hq, h3⟩
+  have hf : Fresh (runOp p op pl).1 := ⟨by rw [h1]; exact hq, h3⟩
   refine ⟨hf, ?_⟩
   rw [fresh_view _ hf, fresh_view _ hp, h1, hl]
 
